@@ -2,11 +2,31 @@
 """Regenerates MANIFEST.json from the table below (kept in one place so the manifest is always valid)."""
 import json, sys
 
+TRUST = "Trusted: the reference components refcbor/refcose/refiana (small, independent of coset and ciborium, cross-checked at setup), rustc/std, derived Debug of coset types as the observation of decoded values. Exhaustive only within the stated bounds (see evidence coverage.bounds and DESIGN.md section 8)."
 CHECKS = {
+ "C07": dict(section="4.7", technique="exhaustive bounded enumeration of structured inputs (explicit-state tree search); one-step fixed-point oracle on the real encoder/decoder",
+   text="Every input of the structured spaces of C08/C09/C10/C12/C14/C15/C18 plus dedicated non-canonical families (all encodings within 2 deviations incl. bignum and indefinite forms) is decoded; for each accepted one: re-encode, re-decode, compare value (incl. retained protected bytes) and second encoding, tagged forms too."),
  "C08": dict(section="4.8", technique="exhaustive enumeration of bounded header maps (explicit-state tree search) with differential check against an independent reference decoder",
-   text="Every header map with <= 3 (quick) / 4 (thorough) entries over a ~130-pair alphabet (each rule satisfied and violated alone), in every order, at 5 carrier positions, plus all encodings within 1-2 deviations of small maps, is decoded by the real crate and compared (accept/reject and every field) with an independent reference; exhaustive within the stated bounds.",
-   note="Trusted: refcbor/refcose reference components (small, cross-checked at setup), rustc/std, derived Debug of coset types as the observation of decoded values. Bounds: map size, alphabet, encoding deviations."),
+   text="Every header map with <= 3 (quick) / 4 (thorough) entries over a ~130-pair alphabet (each rule satisfied and violated alone), in every order, at up to 29 carrier positions, plus all encodings within 1-2 deviations of small maps, is decoded by the real crate and compared (accept/reject and every field) with an independent reference."),
+ "C09": dict(section="4.9", technique="exhaustive enumeration of arrays over a slot alphabet (explicit-state product search), each decoded as all eight structure types, compared with an independent reference",
+   text="All arrays of arity 3,4,5 over a 29-value slot alphabet (reduced alphabets for the largest products in quick) and arity 0,1,2,6,7 over a reduced one, every non-array kind, decoded as each of the 8 structure types untagged and tagged; accept/reject and every field compared with the reference CDDL rules; encodings within 1-2 deviations."),
+ "C10": dict(section="4.10", technique="exhaustive enumeration of bounded key maps and key sets (explicit-state tree search) against an independent reference decoder",
+   text="Every COSE_Key map with <= 3/4 entries over a ~70-pair alphabet in every order (kty at every position, absent, reserved, duplicated), as a key and inside a key set; all key sets of 0..3 valid/invalid elements; encodings within 1-2 deviations."),
+ "C12": dict(section="4.12", technique="exhaustive enumeration of duplicate-label placements x label encodings x carriers (decode) and of colliding in-memory values (encode)",
+   text="Decode: every label of a boundary-crossing set x every pair of encodings x every pair of positions in maps of size 2..4 x every carrier (29 header positions, key, key set, claims) must be rejected, with the duplicate-key error when it is the only fault. Encode: see C11-style enumeration of colliding in-memory values."),
+ "C13": dict(section="4.13", technique="exhaustive prefix/suffix enumeration over every accepted input of the structured spaces; layer-agreement differential on every input",
+   text="For every accepted input of the (reduced-bound) structured spaces: all proper prefixes rejected, 265 suffixes rejected with the extraneous-data error; for every input byte API == Value API in both directions, tagged forms included."),
+ "C14": dict(section="4.14", technique="exhaustive product 6 types x 16 tags x head widths x bodies x tagging depth through both entry points",
+   text="Exact iff of the statement for every combination, plus bytewise to_tagged_vec == tag head || to_vec and tagged round trip."),
+ "C15": dict(section="4.15", technique="exhaustive enumeration of an integer boundary lattice and window x interpreting positions x head widths against exact-arithmetic reference",
+   text="~1.3k lattice integers in [-2^64, 2^64-1] plus a window (+-300 quick / +-70000 thorough) at 34 positions under every head width: exact value or out-of-range error; extras preserved; re-encoding reads back as the same integer with a minimal head."),
+ "C17": dict(section="4.17", technique="exhaustive enumeration of [-70000,70000] + 64-bit extremes over all 16 registry enums and all label-typed decode positions against a registry snapshot",
+   text="from_i64/to_i64/Debug name/is_private compared with the refiana snapshot for every integer of the window in every registry, every snapshot row must be hit; classification through decoding at every label-typed position."),
+ "C18": dict(section="4.18", technique="exhaustive enumeration of bounded claims maps and KDF-context arrays (explicit-state tree/product search) against an independent reference, with re-encode/decode of every accepted value",
+   text="All claims maps with <= 3/4 entries over a ~105-pair alphabet; all PartyInfo / SuppPubInfo arrays of arity 0..4-5 over slot alphabets; all KDF contexts over (alg x party x party x supp x trailing) alphabets; accept/reject, fields (private KDF fields via builder-constructed expected value and via re-encoding) and fixed point."),
 }
+for c in CHECKS.values():
+    c.setdefault('note', TRUST)
 NOT_YET = {}
 
 def main():
